@@ -90,7 +90,13 @@ def finish(a, meta):
     mp = os.path.join(dest, 'meta.json')
     if os.path.exists(mp):
         prev = json.load(open(mp))
-    if prev.get('demo_with_change') not in (0, None) and meta.get('patch_applies') and meta.get('demo_with_change') == 0:
+    if a.tier != 'quick' and prev and 'checks' in meta:
+        # an additional evaluation at another tier: recorded next to the quick-tier result, which is kept
+        prev[f'checks_{a.tier}'] = meta['checks']
+        prev[f'detected_by_{a.tier}'] = meta['detected_by']
+        prev[f'{a.tier}_evaluated_at_head'] = meta['repo_head']
+        meta = prev
+    elif prev.get('demo_with_change') not in (0, None) and meta.get('patch_applies') and meta.get('demo_with_change') == 0:
         # the change no longer breaks the property on the current tree (a later repair removed what it relied on):
         # keep the record of the evaluation made when it did, and say so
         prev['no_longer_manifests_at'] = meta['repo_head']
